@@ -225,6 +225,40 @@ Theorem episode_end_cuts_estimates : forall g l rs vs env_dones nv rs' vs' env_d
 Proof. exact episode_end_cuts_estimates_lemma. Qed.
 Print Assumptions episode_end_cuts_estimates.
 
+(* The estimate as a function of its inputs.  Homogeneity: scaling rewards, values and the bootstrap value by any c
+   scales every estimate by c — nothing in the recursion clips, normalises or depends on the magnitude. *)
+Theorem gae_scale : forall g l c rs vs ds nv nd t,
+  length rs = length vs -> length rs = length ds ->
+  nth t (advs_of (gae_col g l (map (Qmult c) rs) (map (Qmult c) vs) ds (c * nv) nd)) 0 ==
+  c * nth t (advs_of (gae_col g l rs vs ds nv nd)) 0.
+Proof. exact gae_scale_lemma. Qed.
+Print Assumptions gae_scale.
+
+(* lambda = 0: the one-step TD error *)
+Theorem gae_lambda0_is_td_error : forall g rs vs ds nv nd t,
+  length rs = length vs -> length rs = length ds -> (t < length rs)%nat ->
+  nth t (advs_of (gae_col g 0 rs vs ds nv nd)) 0 ==
+  nth t rs 0 + g * ext vs nv (S t) * (1 - ext ds nd (S t)) - ext vs nv t.
+Proof. exact gae_lambda0_lemma. Qed.
+Print Assumptions gae_lambda0_is_td_error.
+
+(* an episode end right after step t: the estimate is r_t - V_t, whatever gamma, lambda and the rest of the rollout *)
+Theorem gae_at_episode_end : forall g l rs vs ds nv nd t,
+  length rs = length vs -> length rs = length ds -> (t < length rs)%nat ->
+  ext ds nd (S t) == 1 ->
+  nth t (advs_of (gae_col g l rs vs ds nv nd)) 0 == nth t rs 0 - ext vs nv t.
+Proof. exact gae_all_done_lemma. Qed.
+Print Assumptions gae_at_episode_end.
+
+(* gamma = lambda = 1, no episode end in the rollout: the sum of the remaining rewards plus the bootstrap value, minus V_t *)
+Theorem gae_monte_carlo : forall rs vs ds nv nd t,
+  length rs = length vs -> length rs = length ds -> (t < length rs)%nat ->
+  Forall (fun x => x == 0) ds -> nd == 0 ->
+  nth t (advs_of (gae_col 1 1 rs vs ds nv nd)) 0 ==
+  rsum (fun i => nth i rs 0) (length rs - t) t + nv - nth t vs 0.
+Proof. exact gae_monte_carlo_lemma. Qed.
+Print Assumptions gae_monte_carlo.
+
 (* Rollout lists whose entries have different Python / numpy number types (int or bool first, floats later): np.stack
    converts them to the common type, which keeps every recorded VALUE; so the estimates are those of the recorded values,
    whatever the types were. *)
@@ -300,6 +334,14 @@ Proof.
   apply (episode_end_cuts_estimates (1#2) (3#4) [1; 2; 3] [4; 5; 6] [0; 1; 0] 7 [1; 2; 9; 9; 9] [4; 5; 8; 8; 8] [0; 1; 1; 0; 1] 70 1);
     try reflexivity; cbn; lia.
 Qed.
+
+Example special_cases_example :
+  (* r = [1;2;3], V = [4;5;6], next value 7: Monte-Carlo estimate at t = 0 is 1+2+3+7-4 = 9; with lambda = 0 and
+     gamma = 1/2 it is 1 + 5/2 - 4; scaled by 1024 it is 1024 times as large *)
+  nth 0 (advs_of (gae_col 1 1 [1; 2; 3] [4; 5; 6] [0; 0; 0] 7 0)) 0 == 9 /\
+  nth 0 (advs_of (gae_col (1#2) 0 [1; 2; 3] [4; 5; 6] [0; 0; 0] 7 0)) 0 == -(1#2) /\
+  nth 0 (advs_of (gae_col 1 1 (map (Qmult 1024) [1; 2; 3]) (map (Qmult 1024) [4; 5; 6]) [0; 0; 0] (1024 * 7) 0)) 0 == 9216.
+Proof. repeat split; reflexivity. Qed.
 
 Example minibatches_example :
   (* 5 rows, batch_size 2, two epochs; the second shuffle acts on the already shuffled array *)
